@@ -67,7 +67,7 @@ var c20Fields = []optField{
 type equiv struct {
 	name string
 	a, b func(o *webp.EncoderOptions) // two ways of writing the same request
-	also string                        // extra context requirement ("lossless": only under Lossless)
+	also string                       // extra context requirement ("lossless": only under Lossless)
 }
 
 var c20Equivs = []equiv{
@@ -255,7 +255,9 @@ func (cs *c20Case) run() string {
 				return webp.Encode(&buf, constImg{image.Rectangle{image.Pt(5, 5), image.Pt(1, 1)}, color.NRGBA{1, 2, 3, 255}}, nil)
 			})
 		case "16384x1-lossy":
-			return mustErr("16384 x 1", func() error { return webp.Encode(&buf, constImg{image.Rect(0, 0, 16384, 1), color.NRGBA{1, 2, 3, 255}}, nil) })
+			return mustErr("16384 x 1", func() error {
+				return webp.Encode(&buf, constImg{image.Rect(0, 0, 16384, 1), color.NRGBA{1, 2, 3, 255}}, nil)
+			})
 		case "1x16384-lossless":
 			return mustErr("1 x 16384", func() error {
 				return webp.Encode(&buf, constImg{image.Rect(0, 0, 1, 16384), color.NRGBA{1, 2, 3, 255}}, &webp.EncoderOptions{Lossless: true, Quality: 75, Method: 4})
@@ -287,7 +289,9 @@ func (cs *c20Case) run() string {
 			if err == nil {
 				return "failing writer: Encode returned nil although the writer refused every byte"
 			}
-			err, p = call(func() error { return webp.Encode(&failWriter{}, src, &webp.EncoderOptions{Lossless: true, Quality: 75, Method: 4}) })
+			err, p = call(func() error {
+				return webp.Encode(&failWriter{}, src, &webp.EncoderOptions{Lossless: true, Quality: 75, Method: 4})
+			})
 			if p != "" {
 				return "failing writer (lossless): panic: " + p
 			}
